@@ -161,6 +161,18 @@ pub fn build(bins: &Binaries, repo: &Path, verif: &Path, thorough: bool, scratch
                 cmds.push(one("parse", vec![s("parse"), s("--as"), s("specification"), s("--output"), s("default"), input_arg.clone()], format!("parse-spec:{label}"), false));
                 cmds.push(one("parse", vec![s("parse"), s("--as"), s("specification"), input_arg.clone()], format!("parse-spec-debug:{label}"), false));
             }
+            "th" => {
+                // hand-written theories (fixpoint stress inputs)
+                cmds.push(one("parse", vec![s("parse"), s("--as"), s("theory"), s("--output"), s("default"), input_arg.clone()], format!("parse-theory:{label}"), false));
+                for with in ["gamma", "completion"] {
+                    cmds.push(one("translate", vec![s("translate"), s("--with"), s(with), input_arg.clone()], format!("translate-{with}:{label}"), false));
+                }
+                for portfolio in ["classic", "ht", "intuitionistic"] {
+                    for strategy in ["shallow", "recursive", "fixpoint"] {
+                        cmds.push(one("simplify", vec![s("simplify"), s("--portfolio"), s(portfolio), s("--strategy"), s(strategy), input_arg.clone()], format!("simplify-{portfolio}-{strategy}:{label}"), false));
+                    }
+                }
+            }
             "ug" => {
                 cmds.push(one("parse", vec![s("parse"), s("--as"), s("user-guide"), s("--output"), s("default"), input_arg.clone()], format!("parse-ug:{label}"), false));
             }
